@@ -63,7 +63,7 @@ def primes(n: int) -> list[int]:
 # ----------------------------------------------------------------------------- domain
 
 def shape_code(sh) -> int:
-    return int(''.join(str(d) for d in sh))
+    return int(''.join(str(d) for d in sh)) if len(sh) else 0      # a 0-d leaf: code 0 (alone, or as the second leaf)
 
 
 def tree_code(tree) -> int:
@@ -97,6 +97,9 @@ def full_domain() -> dict:
     pairs += [((1, 3), (2, 1, 3)), ((3, 2, 1), (3, 2)), ((1,), (1, 1))]
     values = [s for r in (1, 2) for s in shapes(r)]
     deg = [((3,),), ((2,), (3, 2))]
+    # leaves of rank 0 (a scalar offset next to an array): the values always have at least one dimension
+    pairs += [((2, 3), ()), ((3,), ()), ((2, 2, 3), ())]
+    singles = singles + [((),)]
     pairs = sorted(set(pairs))
     # values of rank 3 (every ordered triple of distinct axes: sorted, swapped and cyclic orders):
     # a family of shapes, on every single leaf and on a few two-leaf structures
@@ -117,7 +120,7 @@ def domain(tier: str, seed: int) -> tuple[dict, bool]:
     asym = [t for t in r3 if len(set(t[0])) == 3]          # all extents different: 6 shapes
     pick3 = rng.sample(asym, 2) + rng.sample([t for t in r3 if t not in asym], 1)
     deg2 = [t for t in full['deg'] if len(t) == 2]
-    pairs = rng.sample([t for t in full['pairs'] if t not in deg2], 3) + deg2
+    pairs = rng.sample([t for t in full['pairs'] if t not in deg2 and () not in t], 3) + deg2 + [((2, 3), ()), ((3,), ())]
     # values of rank 3 in quick: the cube, one seeded shape with different extents, one with a unit extent,
     # on a leaf of each rank (the rank-3 one with different extents) and one two-leaf structure
     v3 = [(2, 2, 2), rng.choice([(2, 3, 2), (3, 3, 3)]), rng.choice([(1, 2, 3), (2, 1, 3), (3, 2, 1)])]
